@@ -3,6 +3,7 @@ package middleware
 import (
 	"context"
 	"errors"
+	middlewareapi "github.com/oauth2-proxy/oauth2-proxy/v7/pkg/apis/middleware"
 	"net/http"
 	"time"
 
@@ -110,6 +111,7 @@ type vStore struct {
 	savedAtSec     int64
 	savedHadCA     bool
 	lockHeldAtSave bool
+	savedScope     *middlewareapi.RequestScope // the request scope the store could see at Save
 	clearCalls     int
 	clearErr       error
 	lock           sessionsapi.Lock
@@ -147,8 +149,9 @@ func (s *vStore) Load(_ *http.Request) (*sessionsapi.SessionState, error) {
 	return nil, vErrStore
 }
 
-func (s *vStore) Save(_ http.ResponseWriter, _ *http.Request, ss *sessionsapi.SessionState) error {
+func (s *vStore) Save(_ http.ResponseWriter, req *http.Request, ss *sessionsapi.SessionState) error {
 	s.saveCalls++
+	s.savedScope = middlewareapi.GetRequestScope(req)
 	s.savedAT, s.savedRT, s.savedIT = ss.AccessToken, ss.RefreshToken, ss.IDToken
 	s.savedHadCA = ss.CreatedAt != nil
 	if ss.CreatedAt != nil {
